@@ -48,6 +48,65 @@ func HarnessByHeightRoute(k int) {
 	vh.Reach("end")
 }
 
+// HarnessHashRoutes (C04): header by hash, state by hash and ancestors answer with the documents of
+// what the service returns for the request's path parameters (stored hashes or an unknown one), and
+// with a client error when the service refuses.
+func HarnessHashRoutes(k int) {
+	pre := make([]hstore.H, k)
+	for i := range pre {
+		pre[i] = hstore.NondetH()
+	}
+	vh.Assume(hstore.Inv(pre, nil))
+	var hashes, prevs []hstore.Hash
+	for i := range pre {
+		hashes, prevs = append(hashes, pre[i].Hash), append(prevs, pre[i].Prev)
+	}
+	vh.Assume(hstore.Acyclic(hashes, prevs))
+	db := hstore.Store(pre)
+	hs := service.NewHeaderService(hstore.Repos(db), nil, vh.Logger())
+	h := &handler{service: hs, log: vh.Logger()}
+	e := vhgin.NewEngine()
+	e.GET("/header/:hash", h.getHeaderByHash)
+	e.GET("/state/:hash", h.getHeadersState)
+	e.GET("/header/:hash/:ancestorHash/ancestor", h.getHeaderAncestorsByHash)
+	pick := func(what string) string {
+		if c := vh.Choose(k + 1); c < k {
+			return pre[c].Hash.String()
+		}
+		return vh.NondetHash(what).String()
+	}
+	hash := pick("qhash")
+	switch vh.Choose(3) {
+	case 0:
+		want, err := hs.GetHeaderByHash(hash)
+		resp := vhgin.Serve(e, "GET", "/header/:hash", vhgin.Req{Params: map[string]string{"hash": hash}})
+		if err == nil {
+			vh.Assert("C04/hash-routes-answer-with-the-service-result", resp.Status == 200 && vhgin.BodyIs(resp, newBlockHeaderResponse(want)))
+		} else {
+			vh.Assert("C04/hash-routes-answer-with-the-service-result", resp.Status >= 400 && resp.Status < 500)
+		}
+	case 1:
+		want, err := hs.GetHeaderByHash(hash)
+		resp := vhgin.Serve(e, "GET", "/state/:hash", vhgin.Req{Params: map[string]string{"hash": hash}})
+		if err == nil {
+			vh.Assert("C04/hash-routes-answer-with-the-service-result", resp.Status == 200 && vhgin.BodyIs(resp, newBlockHeaderStateResponse(want)))
+		} else {
+			vh.Assert("C04/hash-routes-answer-with-the-service-result", resp.Status >= 400 && resp.Status < 500)
+		}
+	default:
+		anc := pick("qancestor")
+		want, err := hs.GetHeaderAncestorsByHash(hash, anc)
+		resp := vhgin.Serve(e, "GET", "/header/:hash/:ancestorHash/ancestor", vhgin.Req{Params: map[string]string{"hash": hash, "ancestorHash": anc}})
+		if err == nil {
+			vh.Assert("C04/hash-routes-answer-with-the-service-result", resp.Status == 200 && vhgin.BodyIs(resp, mapToBlockHeadersResponses(want)))
+		} else {
+			vh.Assert("C04/hash-routes-answer-with-the-service-result", resp.Status >= 400 && resp.Status < 500)
+		}
+	}
+	vh.Reach("end")
+}
+
 func init() {
 	Registry["HarnessByHeightRoute"] = func(a []int64) { HarnessByHeightRoute(int(a[0])) }
+	Registry["HarnessHashRoutes"] = func(a []int64) { HarnessHashRoutes(int(a[0])) }
 }
